@@ -34,7 +34,7 @@ def subsets(n):
     return [[j for j in range(n) if (m >> j) & 1] for m in range(1 << n)]
 
 
-HIST_ALPHA = {'build': 8, 'apply': 3, 'quantify': 16, 'drop': 6, 'gc': 5, 'swap': 3, 'sift': 1, 'reorder_to': 1, 'cube': 2, 'declare': 1, 'undeclare': 4, 'add_var': 1, 'let_rename': 1, 'gc_roots': 1}
+HIST_ALPHA = {'build': 8, 'repeat': 6, 'apply': 3, 'quantify': 16, 'drop': 6, 'gc': 5, 'swap': 3, 'sift': 1, 'reorder_to': 1, 'cube': 2, 'declare': 1, 'undeclare': 4, 'add_var': 1, 'let_rename': 1, 'gc_roots': 1}
 
 
 def _hist_nontrivial(w):
